@@ -141,6 +141,10 @@ Inductive instr :=
 | ISpawn (o : N)                              (* level.o<o> = spawn Listener *)
 | IThread (p : list instr)                    (* thread <label of p> *)
 | IWaitThread (p : list instr)                (* local.r = waitthread <label of p> *)
+| IWaitThreadGroup (ps : list (list instr))
+    (* local.grp = g1::g2::..; local.grp waitthread <label>: the command is applied to every
+       receiver in turn, the callee on receiver k runs program k; the caller must proceed only
+       after the last callee has ended *)
 | IEnd (v : option N).                        (* end [v] *)
 
 Inductive op :=
@@ -154,6 +158,14 @@ Fixpoint isize (i : instr) : nat :=
   match i with
   | IThread p | IWaitThread p =>
       (3 + (fix ps (l : list instr) : nat := match l with [] => O | j :: l' => (isize j + ps l')%nat end) p)%nat
+  | IWaitThreadGroup ps =>
+      S ((fix pss (ll : list (list instr)) : nat :=
+            match ll with
+            | [] => O
+            | p :: ll' =>
+                (3 + (fix ps (l : list instr) : nat := match l with [] => O | j :: l' => (isize j + ps l')%nat end) p
+                 + pss ll')%nat
+            end) ps)
   | IWaitTillAny _ ns => S (length ns)
   | IWaitTillAnyTimeout _ _ ns => S (length ns)
   | _ => 1%nat
@@ -329,6 +341,7 @@ Inductive task :=
 | KEnd (w : N) (v : option N)
 | KExecRunning                         (* ScriptMaster::ExecuteRunning *)
 | KResumeLoop (w : N)                  (* its while loop, w = the element just taken *)
+| KGroup (w : N) (ps : list (list instr))   (* ExecCmdMethodCommon: the command on every receiver *)
 | KProcessEvents                       (* EventQueue::ProcessPendingEvents *)
 | KFrame.                              (* ScriptContext::Execute after SetTime: events, then due threads *)
 
@@ -579,7 +592,26 @@ Section Interp.
               let s1 := new_class (new_thread (upd s w (w_rreg (th s w) (RPtr (ntid s)))) (ngrp s) p (Some w)) in
               do (x2, s2) <- go f (KRegister (LThr t) NE w) x s1;
               go f (KExecute t) x2 s2
+          | IWaitThreadGroup ps => go f (KGroup w ps) x s
           | IEnd v => go f (KEnd w v) x s
+          end
+      | KGroup w ps =>
+          (* for every receiver: WaitCreateThread = CreateThreadInternal (a new ScriptClass),
+             thread->Register(0, CurrentThread()), thread->ScriptExecute; the caller that was put
+             on the timer by a callee that ended at once is taken off it again by the Stop() of
+             StartedWaitFor when it registers on the next callee.  (A caller deleted by one of
+             its callees makes the next Register dereference a null current thread: not modelled,
+             the loop ends.) *)
+          match ps with
+          | [] => Some (x, s)
+          | p :: ps' =>
+              if alive (th s w) then
+                let t := ntid s in
+                let s1 := new_class (new_thread s (ngrp s) p None) in
+                do (x2, s2) <- go f (KRegister (LThr t) NE w) x s1;
+                do (x3, s3) <- go f (KExecute t) x2 s2;
+                go f (KGroup w ps') x3 s3
+              else Some (x, s)
           end
       | KExecRunning =>
           match cur s with
